@@ -449,7 +449,7 @@ def _emit_fn(g, source, a, blocks, vacuity, probe_insert=None):
         if b2 != body_src:
             rules.append(("R2c", f"`{alias}!` is an import alias of `ready!`"))
             body_src = b2
-    body = rewrite_body(body_src, rules, intended_panics=bool(a.get("intended_panics")))
+    body = rewrite_body(body_src, rules, intended_panics=bool(a.get("intended_panics")), runtime_asserts=bool(a.get("runtime_asserts")))
     body = apply_r9(body, rules)
     if a.get("inline_thread_body"):
         # R11e: `.spawn(move || EXPR)` (a thread whose body is one expression over variables it takes by move) ->
